@@ -476,6 +476,21 @@ vbi_bit_slicer_init(vbi_bit_slicer *slicer,
 			 + sampling_rate * 256.0 / bit_rate * .25 + 128);
 		break;
 	}
+
+	{
+		int reach;
+
+		/* The last sample read relative to the position where
+		   the CRI was found: the payload loop reads the samples
+		   at (phase_shift + n * step) >> 8 and the next one,
+		   a little more than estimated above. */
+		reach = (int)((slicer->phase_shift
+			       + slicer->step
+			       * (long long)(payload + frc_bits - 1)) >> 8) + 2;
+
+		if (slicer->cri_bytes > raw_samples - reach)
+			slicer->cri_bytes = raw_samples - reach;
+	}
 }
 
 /**
